@@ -25,6 +25,9 @@ ASSUMPTIONS = [
     'whitespace is only changed between tokens, never inside a token or a quoted string; a label is only joined with the '
     'statement that follows it; only instructions (not directives) are joined with each other',
     'comments do not contain a vertical tab',
+    "the character literal '\\' is not followed by further text that gives its line a second well-formed reading (a string "
+    "beginning with an escaped quote): directly by a semicolon with an apostrophe later on, or by text whose only "
+    "unescaped apostrophe ends the line (counted as not_asserted_two_readings in the lattice report)",
 ]
 BUDGET = {'quick': 3000, 'thorough': 150000}
 LEVEL_TEXT = ('Metamorphic exploration: invariance is a relation between pairs of whole programs and must hold wherever '
@@ -192,7 +195,33 @@ def render_surface(items, surf):
     return '\n'.join(lines) + '\n', kinds
 
 
+def extra_phase(tier, seed):
+    """Statements made of quoted characters that are themselves quotes, semicolons, commas or backslashes, followed by
+    every comment text up to a length over the same alphabet: the bytes are those of the statement alone."""
+    from .. import quotelattice as Q
+    L = 4 if tier == 'thorough' else 2
+    jobs, skipped = Q.comments(L)
+    runs, bad = Q.survey(jobs)
+    findings = [('C18/comment-changes-a-statement-of-quoted-characters', {'kind': 'lattice', 'line': j['line'], 'bytes': j['bytes']}, d)
+                for j, d in bad]
+    return {'evals': len(jobs), 'cases': len(jobs), 'findings': findings,
+            'nt': {'lattice:' + j['line'] for j in jobs[:2000]},
+            'report': {'quoted_character_comment_lattice': {
+                'lines_enumerated': len(jobs), 'assembler_runs': runs, 'exhaustive_up_to_comment_length': L,
+                'comment_alphabet': Q.COMMENT_ALPHABET, 'not_asserted_two_readings': skipped}},
+            'samples': [{'lattice_line': j['line'], 'expected_bytes': bytes(j['bytes']).hex()} for j in jobs[40:42]]}
+
+
 def execute(case, ctx):
+    if case.get('kind') == 'lattice':
+        from .. import quotelattice as Q
+        got, r = Q.assemble([case['line']])
+        fs = []
+        if got != bytes(case['bytes']):
+            fs.append(Finding('C18/comment-changes-a-statement-of-quoted-characters',
+                              {'line': case['line'], 'expected': bytes(case['bytes']).hex(),
+                               'got': got.hex() if got is not None else r.klass, 'run': r.brief()}))
+        return Outcome(fs, True, ['lattice-replay'], 1)
     cfg = isagen.fix_int_keys(copy.deepcopy(case['isa']))
     fname, text = isagen.dump_isa(cfg, 'yaml')
     items = list(G.flatten(case['items']))
